@@ -311,4 +311,16 @@ PROPS['C17'].update({
                   'parameters whose run-time value is a set are not tracked. id()-based orders other than set iteration are not modelled.',
 })
 
+PROPS['C16'].update({
+    'units': ['junctors.RelationMeta.__call__', 'lemma.relation_patterns', 'junctors.Relations.__init__', 'junctors.Relations.tostring'],
+    'level': 'proof',
+    'proved_part': 'classification by complete enumeration of the finite pattern domain against the real class table (kind, rank, orientation; Replication becomes a '
+                   'swapped Implication); two contingent columns can only give the 7 oracle patterns; Relations.__init__: unary entries per property first (when requested), '
+                   'one entry per 2-combination of contingent properties pairing their columns, list initialised once and stably sorted by rank; tostring is defined for an empty list',
+    'bounded_part': 'Context.relations passing the property columns; the printed text lists exactly the non-orthogonal entries; replay',
+    'technique': 'contract-based deductive verification: complete finite-domain enumeration of RelationMeta.__call__ on the real table + dataflow-shape contract of Relations.__init__',
+    'level_text': 'The pattern domain is finite and enumerated completely (a loop-free harness over the full domain); the construction glue is proved from library contracts.',
+    'level_note': 'Assumes itertools.combinations/chain, zip, list.sort (stable) contracts; the docstring parser is not verified, its resulting table is checked against the oracle.',
+})
+
 NOT_APPLICABLE = {}
